@@ -5,6 +5,7 @@ import json
 from typing import List
 
 from harness.lib.core import VERIF, Ctx, lean_lock, run_driver, shrink_ops
+from harness.extract import filter as x_filter
 from harness.extract import forward as x_forward
 from harness.rigs import net08 as rnet
 from harness.rigs import route as rroute
@@ -20,14 +21,17 @@ MANIFEST = {
             "hop lowers the TTL by one and drops at TTL < 1, so the accepted receptions + hops of one frame object, over all flood "
             "branches, are at most its TTL; ARP look-ups re-attempt at most twice; hosts send on-link destinations directly and "
             "everything else to the gateway's MAC; routers forward to the next hop of the route find_best_route returns, never "
-            "forward broadcasts, and drop unpermitted service frames first; a ping between two hosts joined by chains of any number "
-            "of directly linked routers with warm caches and routes along the chain succeeds (liveness, partial). Tie: constants, comparison operators, acceptance tests and "
+            "forward broadcasts, and drop frames their first verdict denies before anything else (firewalls: the arrival port's list, "
+            "no ARP exemption, then the list chosen by the destination); a ping and a service request/reply between two hosts joined "
+            "by warm paths of any number of switches, routers and firewalls in any order, every verdict permitting, succeed "
+            "(liveness, partial: warm caches). Tie: constants, comparison operators, acceptance tests and "
             "call order regenerated from the source (Gen/Forward.lean) + rigs R-route and R-net (whole event streams, results and "
             "final tables of generated topologies diffed against the model, plus the property's own oracle on the implementation).",
     "note": "C08-specific: whole-network termination is proved per frame (TTL) and per look-up (flags); that the nesting of ARP "
             "exchanges ends, and that permitted exchanges succeed (liveness), are checked by the rig on the implementation, not "
-            "proved. Metrics are Int in the model (float inf/nan not modelled). ACLs are abstracted to the default router ACL plus "
-            "one permit flag; firewalls, wireless, multi-NIC hosts, power toggles and link capacity are outside the forwarding model.",
+            "proved. Metrics are Int in the model (float inf/nan not modelled). Rule lists are abstracted to one verdict per payload "
+            "class (router: default ACL plus one permit flag; firewall: six lists x three classes); an air space frequency is "
+            "modelled for two access points only; link / air space capacity is outside the forwarding model.",
     "technique": "Lean 4 theorems over executable models of route selection and frame forwarding; models tied by regenerated tables and "
                  "two differential rigs",
     "design_ref": "5/C08",
@@ -142,9 +146,16 @@ def _run_net(ctx: Ctx):
         ctx.cov["traces_validated_against_impl"] += 1
         notes = case.get("notes", {})
         ctx.count("net-hypotheses-of-arp-sound-theorem:" + out[pos[0] - 1])
-        for key in ("via_host", "gw_is_host"):
+        for key in ("via_host", "gw_is_host", "gw_off_subnet"):
             if notes.get(key):
                 ctx.count("net-misconfig:" + key)
+        if notes.get("dual_homed") is not None:
+            ctx.count("net-dual-homed-host")
+        if notes.get("kinds"):
+            ctx.count("net-kinds:" + notes["kinds"])
+        if notes.get("fw") and "firewall" in notes.get("kinds", ""):
+            ctx.count("net-fw-lists:" + notes["fw"])
+        special = {n for n, nd in enumerate(case["nodes"]) if nd["kind"] in ("firewall", "wrouter")}
         ctx.count(f"net-routers:{notes.get('routers')}")
         ctx.count(f"net-routing:{notes.get('routing')}")
         nontrivial = False
@@ -152,12 +163,20 @@ def _run_net(ctx: Ctx):
             ctx.count("net-op:" + op["op"])
             if op["op"] == "service":
                 ctx.count("net-service:" + a.split()[0])
+                for sp in special:
+                    if any(t.startswith(f"hop:{sp}:") for t in a.split()[1:]):
+                        ctx.count(f"net-service-through-{case['nodes'][sp]['kind']}:{a.split()[0]}")
+            if op["op"] == "power":
+                ctx.count(f"net-power:{case['nodes'][op['node']]['kind']}:{op['on']}")
             if op["op"] == "ping":
                 ctx.count("net-ping:" + a.split()[0])
                 toks = a.split()[1:]
                 if any(t.startswith("hop:") for t in toks):
                     ctx.count("net-ping-routed")
                     nontrivial = True
+                    for sp in special:
+                        if any(t.startswith(f"hop:{sp}:") for t in toks):
+                            ctx.count(f"net-ping-through-{case['nodes'][sp]['kind']}:{a.split()[0]}")
                 ctx.count("net-events", len(toks))
             if "OOF" in a.split():
                 ctx.count("net-model-out-of-fuel")
@@ -211,10 +230,12 @@ def replay(rec: dict) -> bool:
 def run(ctx: Ctx):
     with lean_lock():
         ctx.extract("Forward", x_forward.emit)
+        ctx.extract("Filter", x_filter.emit)  # C06's extractor: firewall entry points (tied by C08_gen_firewall)
         ctx.prove(MODULES, exes=[EXE], clean=False, leanchecker=ctx.thorough)
     ctx.cov["rule"] = ("route cases = (surface in {RouteTable api, Router.from_config}, table, default, interleaved queries), non-trivial "
-                       "when some query is answered by a table entry or raises; net cases = (generated topology, op sequence of pings / "
-                       "NIC toggles / cache clears), non-trivial when some ping is routed (a router hop event occurs); distinct by "
+                       "when some query is answered by a table entry or raises; net cases = (generated topology of hosts (single- or "
+                       "dual-homed) / switches / routers / firewalls / wireless routers, op sequence of pings / service requests / "
+                       "interface, switch-port and power toggles / cache clears), non-trivial when some ping is routed (a router hop event occurs); distinct by "
                        "canonical JSON of the case")
     _run_route(ctx)
     _run_net(ctx)
